@@ -231,6 +231,18 @@ func Serve(h http.Handler, r Req) (resp Resp) {
 		}
 		resp.Body = rec.Buf.Bytes()
 		resp.Wrote = rec.WroteHeader
+		// net/http's server fills in a Content-Type guessed from the first 512 body
+		// bytes when the handler set none (and no Content-Encoding): part of what a
+		// client of the real server sees, so the recorder does the same
+		if _, has := resp.Header["Content-Type"]; !has && hr.Method != "HEAD" && len(resp.Body) > 0 &&
+			resp.Header.Get("Content-Encoding") == "" && resp.Header.Get("Transfer-Encoding") == "" {
+			n := len(resp.Body)
+			if n > 512 {
+				n = 512
+			}
+			resp.Header = resp.Header.Clone()
+			resp.Header.Set("Content-Type", http.DetectContentType(resp.Body[:n]))
+		}
 	}
 	return resp
 }
